@@ -39,7 +39,7 @@ class PGen:
             out.append(s)
             if s["s"] in ("break", "continue", "return"):
                 break
-            if s["s"] == "for" and s.get("shadow") and self.rng.random() < 0.6:
+            if s["s"] in ("for", "switch") and s.get("shadow") and self.rng.random() < 0.6:
                 # the initialiser of this loop shadows an outer variable: read the outer one again after the loop
                 out.append({"s": "yieldx", "x": s["shadow"]})
         return out
@@ -262,11 +262,25 @@ class PGen:
         s = {"s": "switch", "init": None, "tag": None if tagless else self.fresh(), "cases": cases}
         if r.random() < 0.12:
             s["init"] = {"s": "atom", "id": self.fresh()}
+        if "declinit" in self.feats and not tagless and r.random() < 0.35:
+            # 'switch x := …; tag(x) { … }': the rewriter hoists a ':=' initialiser into a fresh block around the switch
+            outer = list(ctx["vars"])
+            x = r.choice(outer) if outer and r.random() < 0.5 else self.var()
+            if x in outer:
+                s["shadow"] = x
+            s["init"] = {"s": "decl", "x": x, "id": self.fresh()}
+            s["tagx"] = x
         return s
 
     def body(self, size):
         ctx = {"loop": False, "switch": False, "vars": [], "funcs": [], "depth": 0, "local": []}
         return self.stmts(self.rng.randint(1, 4), ctx, size)
+
+
+def tag_text(s):
+    """The tag expression of a switch; a switch whose initialiser declares x mentions x in its tag."""
+    t = "tr.T(%d)" % s["tag"]
+    return "%s+%s-%s" % (t, s["tagx"], s["tagx"]) if s.get("tagx") else t
 
 
 # ----------------------------------------------------------------------------- analysis
@@ -489,7 +503,7 @@ class Render:
         elif k == "switch":
             init = self.simple(s["init"]) + "; " if s.get("init") else ""
             if s.get("tag") is not None:
-                e(ind, "switch %str.T(%d) {" % (init, s["tag"]))
+                e(ind, "switch %s%s {" % (init, tag_text(s)))
             else:
                 e(ind, "switch %s{" % init)
             for c in s["cases"]:
